@@ -221,7 +221,9 @@ func (w *World) ConnectScript(a *FNode, name string, linkID uint64) *Script {
 	sc.End = c.B
 	sc.Sess = stream_packet.NewSession(sb, 2000000)
 	w.Conns = append(w.Conns, c)
-	a.FS.AddPeerStream(pubsub.PeerLinkTuple{PeerID: sc.P.ID, LinkID: linkID}, true, &node.StubMounted{Strm: sa, Peer: sc.P.ID, Proto: floodsub.FloodSubID})
+	// (as a task: the router may hold its mutex for a while when a peer exerts back-pressure,
+	// and the driver must never wait for a lock)
+	go a.FS.AddPeerStream(pubsub.PeerLinkTuple{PeerID: sc.P.ID, LinkID: linkID}, true, &node.StubMounted{Strm: sa, Peer: sc.P.ID, Proto: floodsub.FloodSubID})
 	go sc.readLoop()
 	return sc
 }
